@@ -22,7 +22,7 @@ namespace MenpoModel.GenProps.C07Src
 open MenpoModel.C07 MenpoModel.Generated.C07
 
 theorem genMeanPointcloud_eq {n d : ℕ} (l : List (Mat n d)) : genMeanPointcloud l = meanL l := by
-  simp [genMeanPointcloud, meanL]
+  simp [genMeanPointcloud, meanL, np_div_nat]
 
 /-! ### `MultipleAlignment.__init__` -/
 
@@ -33,9 +33,9 @@ theorem genMultipleAlignmentInit_eq {n d : ℕ} (self : GObj n d) (sources : Lis
       else some { self with nSources := sources.length, sources := sources
                             target := target.getD (sumDivL sources sources.length) } := by
   cases target with
-  | none => by_cases h : sources.length < 2 <;> simp [genMultipleAlignmentInit, h, AsPts.get]
+  | none => by_cases h : sources.length < 2 <;> simp [genMultipleAlignmentInit, h, AsPts.get, np_div_nat]
   | some t =>
-    by_cases hd : d = 0 <;> simp [genMultipleAlignmentInit, hd, AsPts.get]
+    by_cases hd : d = 0 <;> simp [genMultipleAlignmentInit, hd, AsPts.get, np_div_nat]
 
 /-! ### `_recursive_procrustes` -/
 
@@ -49,7 +49,7 @@ theorem genGpaRecursiveProcrustes_eq {n d : ℕ} (ext : Ext) (rec : GObj n d →
     genGpaRecursiveProcrustes ext rec g = gpaStepExt ext rec g := by
   unfold gpaStepExt
   simp only [genGpaRecursiveProcrustes, genMeanPointcloud_eq, genAlignedSource_eq, genPointCloudNorm_eq, genSetTarget_eq,
-    retarget, genSimilaritySync_eq, AsPts.get, id, HObj.ops, List.map_map, Function.comp_def]
+    retarget, genSimilaritySync_eq, AsPts.get, id, HObj.ops, List.map_map, Function.comp_def, np_sub_mat]
   simp only [← gpaNewTargetExt_def]
   -- both sides now speak about the same two tests: split on them, whatever their order / polarity in the source
   by_cases h1 : g.nIterations > g.maxIterations <;>
@@ -72,7 +72,7 @@ theorem genGpaRec_eq {n d : ℕ} (ext : Ext) (fuel : ℕ) : (genGpaRec ext fuel 
 theorem genGpaInit_eq {n d : ℕ} (ext : Ext) (fuel : ℕ) (sources : List (Mat n d)) (target : Option (Mat n d)) (m : Bool) :
     genGpaInit ext (genGpaRec ext fuel) GObj.blank sources target m = gpaInitExt ext fuel sources target m := by
   simp only [genGpaInit, genMultipleAlignmentInit_eq, gpaInitExt, gpaStart, genGpaRec_eq, genSimilarityInit_eq,
-    genPointCloudNorm_eq, AsPts.get, id, simObj, GObj.blank, HObj.blank]
+    genPointCloudNorm_eq, AsPts.get, id, simObj, GObj.blank, HObj.blank, List.append_eq, List.nil_append]
   by_cases h1 : sources.length < 2 ∧ target.isNone
   · simp [h1]
   · by_cases h2 : target.isSome ∧ d = 0
